@@ -66,6 +66,8 @@ func NumVariants(c string) int {
 		return 16
 	case "admshort":
 		return 11
+	case "createfail":
+		return 5
 	case "admok":
 		return 3
 	case "admcall":
@@ -93,6 +95,16 @@ func Concretize(t ATx, variant int) []byte {
 		return SignedTx(k, t.N, &PlainTo, 0, 21000, 0, nil)
 	case "create":
 		return SignedTx(k, t.N, nil, 0, gas, 0, CounterInit)
+	case "createfail":
+		// contract creation whose init code fails
+		inits := [][]byte{
+			{0xfe},                         // INVALID opcode
+			{0x60, 0x00, 0x60, 0x00, 0xfd}, // PUSH1 0 PUSH1 0 REVERT
+			{0x60, 0x01, 0x63, 0x3f, 0xff, 0xff, 0xff, 0x52, 0x00}, // MSTORE far beyond the gas budget
+			{0x01},             // ADD on an empty stack
+			{0x60, 0x07, 0x56}, // JUMP to a non-JUMPDEST
+		}
+		return SignedTx(k, t.N, nil, 0, gas, 0, inits[variant])
 	case "call":
 		return SignedTx(k, t.N, &tgt, 0, gas, 0, nil)
 	case "revert":
@@ -219,7 +231,7 @@ func ExpectStatus(c string, targetLive bool) *bool {
 			return &f
 		}
 		return &t
-	case "admshort":
+	case "admshort", "createfail":
 		return &f
 	}
 	return nil
